@@ -63,7 +63,7 @@ func (c12) RequiredBuckets(tier string) []string {
 		"safety:kind|range", "safety:kind|prange", "safety:kind|point", "safety:kind|site", "safety:kind|join", "safety:kind|order", "safety:kind|complement",
 		"corpus:phiX174",
 	}
-	return append(out, "cli:repair", "cli:repair source feature", "cli:repair cut between features", "cli:repair value-less unlisted qualifier", "cli:repair cache-on", "cli:repair stream ending in a record without features")
+	return append(out, "cli:repair", "cli:repair source feature", "cli:repair cut between features", "cli:repair value-less unlisted qualifier", "cli:repair cache-on", "cli:repair stream ending in a record without features", "cli:repair table not in location order")
 }
 
 func c12Lbl(s string) gts.Props { return gts.Props{{"label", s}} }
